@@ -74,7 +74,7 @@ pub fn build(family: &str, tier: Tier) -> Vec<Cfg> {
                 }
             }
             // extreme configuration values
-            for (name, ka, ping, ack) in [("ka0-ping0", 0u16, 0u64, 0u64), ("ka1-ping1", 1, 1, 1), ("ka65535-pinghuge", 65535, 1u64 << 40, 1u64 << 40)] {
+            for (name, ka, ping, ack) in [("ka0-ping0", 0u16, 0u64, 0u64), ("ka1-ping1", 1, 1, 1), ("ka65535-pinghuge", 65535, 1u64 << 40, 1u64 << 40), ("ka1-ackmax", 1, 1u64 << 62, u64::MAX)] {
                 let mut c = Cfg::base("robustness", &format!("extreme-{}", name));
                 c.keep_alive = Some(ka);
                 c.ping_timeout = Duration::from_millis(ping);
